@@ -311,7 +311,8 @@ def write_replay(pid, payload):
 def main_check(h, tier, seed, replay=None):
     t0 = time.time()
     pid = h.ID
-    workdir = os.path.join(WORK, pid)
+    # one scratch directory per invocation, so that concurrent runs of the same check do not collide
+    workdir = os.path.join(WORK, pid, str(os.getpid()))
     shutil.rmtree(workdir, ignore_errors=True)
     os.makedirs(workdir)
     os.environ.setdefault('EPYDEMIC_VERIF', '1')
@@ -420,7 +421,8 @@ def main_check(h, tier, seed, replay=None):
         if any(b.startswith('build:Tie') for b in broken):
             report['tie']['skipped'] = 'Tie/%s.vo did not build' % pid
         else:
-            failing, errors = run_cases(pid, terms, h.TIE_IMPORT, h.CHECK_FN, workdir)
+            shard = getattr(h, 'SHARD', None) or min(300, max(10, -(-len(terms) // 16)))
+            failing, errors = run_cases(pid, terms, h.TIE_IMPORT, h.CHECK_FN, workdir, shard=shard)
             tie_fail = [idx_of_term[j] for j in failing]
             if errors:
                 broken.append('tie-B:coqc-error')
@@ -496,7 +498,9 @@ def main_check(h, tier, seed, replay=None):
     }
     os.makedirs(os.path.join(VERIF, 'evidence'), exist_ok=True)
     json.dump(_jsonable(ev), open(os.path.join(VERIF, 'evidence', pid + '.json'), 'w'), indent=1, sort_keys=True)
-    json.dump(_jsonable(report), open(os.path.join(workdir, 'report.json'), 'w'), indent=1, default=str)
+    json.dump(_jsonable(report), open(os.path.join(WORK, pid, 'report.json'), 'w'), indent=1, default=str)
+    if exit_code == 0:
+        shutil.rmtree(workdir, ignore_errors=True)
     for l in lines:
         print(l)
     print('%s %s: %d cases, %d compared with the model (%d disagree), %d direct violations (%d new), obligations %d/%d, %.1fs'
